@@ -63,6 +63,8 @@ def step (st : Srv) (ws : List String) : Srv × String :=
       let r := respond st cb sb ctb len
       (st, s!"enc={showTok r.1} hdr={showHdr r.2} adv={hexArg st.advert}")
     | _, _, _, _ => (st, "bad-op")
+  | ["new", "plain"] => (initSrv, "ok adv=" ++ hexArg initSrv.advert)
+  | ["new", "keyed"] => (initSrvWithKey, "ok adv=" ++ hexArg initSrvWithKey.advert)
   | ["tables"] => (st, tables)
   -- concurrent-response search family: no model involved, the specification is simply
   -- "every response is lossless" (decided by the harness oracle on the real responses)
